@@ -21,7 +21,7 @@ RULE = (
     "cases = (config: recursive, str|bytes root, read-buffer size; initial tree; list of bursts of ops with "
     "micro-sleeps); random part: Hypothesis histories of 1-4 (quick) / 1-8 (thorough) bursts of <= 6 ops over names "
     "{a,b,c}, depth <= 3, with files and pre-built trees in out/ to move in; exhaustive part: every valid history of "
-    "length <= 2 over names {a,b}, depth <= 2 from 3 start states, each back-to-back (where the pacing rule allows) and "
+    "length <= 2 over names {a,ab} (one a prefix of the other), depth <= 2 from 3 start states, each back-to-back (where the pacing rule allows) and "
     "drained after every op.  non-trivial = the history has a directory op on a non-empty directory, or a move across "
     "the tree boundary, or a burst of >= 2 ops one of which is a directory op; distinct = digest of (config, "
     "history without sleeps)"
@@ -204,13 +204,13 @@ def cases(draw, tier, opts_extra=None):
 
 START_STATES = [
     [],
-    [["mkdir", "a"], ["create", "a/b"], ["prebuild", "o1", [["a", "f"]], "d"]],
-    [["mkdir", "a"], ["mkdir", "a/a"], ["create", "b"], ["prebuild", "o1", [], "f"]],
+    [["mkdir", "a"], ["create", "a/ab"], ["prebuild", "o1", [["a", "f"]], "d"]],
+    [["mkdir", "a"], ["mkdir", "a/a"], ["mkdir", "ab"], ["create", "ab/a"], ["prebuild", "o1", [], "f"]],
 ]
 
 
 def exhaustive_histories(maxlen):
-    opts = {"names": ["a", "b"], "depth": 2}
+    opts = {"names": ["a", "ab"], "depth": 2}
     for init in START_STATES:
         m0 = fsops.model_after_init(init)
 
